@@ -56,6 +56,15 @@ def make_alphabet(B, cfg, seed):
                             seen.add(tuple(b)); ops.append(dict(kind=q.kind, name=q.name if q.kind == "fn" else q.op, sig=q.sig, args=b))
                         break
     X.close()
+    # pointer arguments stand for what they point to: the same queries on transient crystals (heap copy freed after the call, so that the next crystal
+    # gets the same address; one caller-owned struct overwritten in place) with colliding Miller indices / energies across different crystals
+    for mode in (0, 1):
+        for ci in (0, 9, 18, 27, 36):
+            for which in (0, 1, 2, 3, 4):
+                for hkl in ((1, 1, 1), (2, 2, 0)):
+                    if which == 4 and hkl != (1, 1, 1):
+                        continue
+                    ops.append(dict(kind="op", name="crystal_transient", sig="iiiiiid", args=[mode, which, ci, hkl[0], hkl[1], hkl[2], 17.0]))
     ops.append(dict(kind="op", name="XRayInit", sig="i", args=[0]))
     for k, v in ((0, 1), (0, 0), (1, 3), (2, 1), (2, 0), (3, 0), (4, 0)):
         ops.append(dict(kind="op", name="deprecated", sig="ii", args=[k, v]))
